@@ -145,6 +145,16 @@ func exec(op string) (res string) {
 		return execHist(op)
 	case "rsess", "rsessx":
 		return execRetry(op)
+	case "walk":
+		return reduceWalk(execWalk(op))
+	case "walko", "walkc":
+		return execWalk(op)
+	case "first", "firstx":
+		return execFirst(op)
+	case "psess":
+		return execPsess(op)
+	case "csess":
+		return execCsess(op)
 	}
 	return "bad-op"
 }
@@ -542,6 +552,19 @@ func main() {
 	}
 	// the retry tier draws from the PRNG after every other tier, so their scenarios are what they were
 	for k, v := range retryTier(r, out, tier) {
+		extra[k] = v
+	}
+	// the walk tier draws after the retry tier
+	for k, v := range walkTier(r, out, tier) {
+		extra[k] = v
+	}
+	for k, v := range firstTier(r, out, tier) {
+		extra[k] = v
+	}
+	for k, v := range psessTier(r, out, tier) {
+		extra[k] = v
+	}
+	for k, v := range csessTier(r, out, tier) {
 		extra[k] = v
 	}
 	out.Close(extra)
